@@ -16,13 +16,14 @@ SequenceReset-GapFill `[a, a')` over numbers none of which is a replayable row.
 
 All theorems are for ALL journals (any length), ALL `should_replay` predicates `sr`, ALL counters.
 
-* `resend_reply_chain`            – open-ended request (EndSeqNo = 0, or ≥ last sent), valid BeginSeqNo
-* `invalid_request_no_side_effect`– BeginSeqNo < 1 or ≥ next outbound number
+* `resend_full`                   – ALL (BeginSeqNo, EndSeqNo): served up to `min(EndSeqNo, last sent)` with
+                                    the rows after it untouched, or ignored (numbers never sent)
+* `resend_reply_chain`            – the open-ended case (EndSeqNo = 0, or ≥ last sent) spelled out
+* `invalid_request_no_side_effect`– BeginSeqNo < 1 or ≥ next outbound number: exact post-state
 * `no_session_message_retransmitted`, `reply_numbers_ascending` – what every chain implies
-* `resend_full` (def)             – the statement for ALL (BeginSeqNo, EndSeqNo)
-* `resend_partial`                – `resend_full` outside the class `D9` (bounded EndSeqNo below the last
-                                    sent number, incl. EndSeqNo < BeginSeqNo); the class is refuted in
-                                    `Findings/C06.lean`
+
+History: until /repo da179c4 a bounded EndSeqNo below the last sent number (class D9) gap-filled and
+deleted the journal rows after EndSeqNo; `resend_full` was then only a `def` with a refutation.
 -/
 namespace AsyncFix.Session.C06
 open Msg AsyncFix.Generated AsyncFix.Generated.ConnEnum
@@ -70,85 +71,6 @@ def Ignored (sr : Msg → Bool) (env : Env) (c : Conn) (m : Msg) : Prop :=
   (recv sr env c m).1.journal.out = c.journal.out ∧
   (recv sr env c m).1.state = c.state ∧
   (Rows.AllLt c.sess.nextIn c.journal.inb → Quiet (recv sr env c m).2)
-
-/-- **Open-ended request.**  For every journal satisfying the outbound invariant, every replay filter,
-`1 ≤ b < nextOut`, EndSeqNo `0` or `≥` the last sent number, in ACTIVE or RESENDREQ_AWAITING: the frames
-written by `recv` form a `ReplyChain` covering exactly `[b, nextOut − 1]`; nothing else happens
-(`Quiet`: no exception, no delivery, no disconnect); `nextOut`, the stored counter and the state are
-what they were; the journal is the old rows `< b` followed by exactly the frames written (each under
-its own number); `OutInv` holds again. -/
-theorem resend_reply_chain (sr : Msg → Bool) (env : Env) (c : Conn) (m : Msg) (b e : Int)
-    (h : Hyp env c m b e) (hb1 : 1 ≤ b) (hb2 : b < c.sess.nextOut)
-    (he : e = 0 ∨ c.sess.nextOut - 1 ≤ e) :
-    ∃ sent : Rows,
-      writes (recv sr env c m).2 = sent.map (·.2) ∧
-      ReplyChain c.sess c.journal.out sr b (c.sess.nextOut - 1) (sent.map (·.2)) ∧
-      Quiet (recv sr env c m).2 ∧
-      (recv sr env c m).1.sess.nextOut = c.sess.nextOut ∧
-      (recv sr env c m).1.journal.outSeq = c.journal.outSeq ∧
-      (recv sr env c m).1.state = c.state ∧
-      (recv sr env c m).1.journal.out = c.journal.out.below b ++ sent ∧
-      (∀ p ∈ sent, b ≤ p.1 ∧ p.1 < c.sess.nextOut ∧ RowOK p.1 p.2) ∧
-      (∀ n, n < b → (recv sr env c m).1.journal.out.find n = c.journal.out.find n) ∧
-      OutInv (recv sr env c m).1 := by
-  have hst : c.state = st_ACTIVE ∨ c.state = st_RESENDREQ_AWAITING := by
-    rcases h.state with h1 | ⟨h1, _⟩
-    · exact Or.inl h1
-    · exact Or.inr h1
-  obtain ⟨sent, epr, ch, so, lt, ok⟩ :=
-    processResend_valid env sr m c b e hst h.sock h.lsender h.ltarget h.lstamp h.req h.inv hb1 hb2 he
-      h.fits
-  obtain ⟨v, h34, hv⟩ := h.envelope.seq
-  have hfin := finalize_req env m (answered c b sent) v h.req.mtype h34 hv
-    (by
-      intro haw
-      rcases h.state with h1 | ⟨_, h2⟩
-      · have : c.state = st_RESENDREQ_AWAITING := haw
-        rw [h1] at this; exact absurd this (by decide)
-      · exact h2)
-  obtain ⟨f1, f2, _, _, f5, f6, f7, f8⟩ := hfin
-  have hok : (finalizeMessage env m (answered c b sent)).res = .ok () :=
-    f8 (Rows.allLt_below _ _)
-  have hrecv := recv_of_resend sr env c (answered c b sent) m _ h.req.mtype h.envelope hst epr
-  rw [f7, hok] at hrecv
-  simp only [raisedOf, List.append_nil] at hrecv
-  have hsentlt : ∀ p ∈ sent, p.1 < c.sess.nextOut := fun p hp =>
-    lt p (List.mem_append.mpr (Or.inr hp))
-  have hout : (recv sr env c m).1.journal.out = c.journal.out.below b ++ sent := by
-    rw [hrecv]; exact f5
-  refine ⟨sent, ?_, ?_, ?_, ?_, ?_, ?_, hout, ?_, ?_, ?_⟩
-  · rw [hrecv]
-    simp only [writes_append, writes_pre, writes_post, writes_map_write, List.nil_append,
-      List.append_nil]
-  · unfold ReplyChain
-    rw [Int.sub_add_cancel]; exact ch
-  · rw [hrecv]
-    refine quiet_append (quiet_append (quiet_pre c) ?_) (quiet_post c)
-    intro e he
-    obtain ⟨p, _, rfl⟩ := List.mem_map.mp he
-    exact Or.inl ⟨_, rfl⟩
-  · rw [hrecv]; exact f2
-  · rw [hrecv]
-    exact f6.trans (by show c.sess.nextOut - 1 = c.journal.outSeq; have := h.inv.stored; omega)
-  · rw [hrecv]; exact f1
-  · intro p hp
-    exact ⟨(ok p hp).2, hsentlt p hp, (ok p hp).1⟩
-  · intro n hn
-    rw [hout]
-    exact find_below_append h.inv.sorted so (fun p hp => (ok p hp).2) hn
-  · refine ⟨by rw [hout]; exact so, ?_, ?_, ?_⟩
-    · rw [hout, hrecv]; simp only [f2]; exact lt
-    · rw [hout]
-      intro p hp
-      rcases List.mem_append.mp hp with h1 | h1
-      · exact h.inv.rows p (Rows.mem_below.mp h1).1
-      · exact (ok p h1).1
-    · rw [hrecv]
-      show (finalizeMessage env m (answered c b sent)).conn.journal.outSeq + 1 =
-        (finalizeMessage env m (answered c b sent)).conn.sess.nextOut
-      rw [f6, f2]
-      show c.sess.nextOut - 1 + 1 = c.sess.nextOut
-      omega
 
 /-- **Invalid request** (`BeginSeqNo < 1` or `≥ nextOut`: numbers never sent).  `_process_resend`
 returns normally, writes nothing, and leaves the connection exactly as it was except that ACTIVE is
@@ -204,52 +126,174 @@ theorem reply_numbers_ascending {s : Session} {J : Rows} {sr : Msg → Bool} {b 
   obtain ⟨ns, h1, h2, h3, h4⟩ := chain_seqs h
   exact ⟨ns, h1, h2, fun n hn => ⟨(h3 n hn).1, by have := (h3 n hn).2; omega⟩, h4⟩
 
-/-! ### the statement for all (BeginSeqNo, EndSeqNo) -/
-
 /-- the last number a request `(b, e)` asks for: `e = 0` means "everything", an `e` beyond the last
 sent number is cut there, `e < b` asks for nothing -/
 def reqLast (c : Conn) (b e : Int) : Int :=
   if e = 0 ∨ c.sess.nextOut - 1 ≤ e then c.sess.nextOut - 1 else if e < b then b - 1 else e
 
-/-- FULL statement: every request is served up to `reqLast` (rows after it stay in the journal) or,
-when BeginSeqNo was never sent, ignored. -/
-def resend_full : Prop :=
-  ∀ (sr : Msg → Bool) (env : Env) (c : Conn) (m : Msg) (b e : Int), Hyp env c m b e →
-    if 1 ≤ b ∧ b < c.sess.nextOut then Served sr env c m b (reqLast c b e) else Ignored sr env c m
+theorem chainEnd_eq (c : Conn) (b e : Int) (hb2 : b < c.sess.nextOut)
+    (hfits : c.sess.nextOut - 1 ≤ sysMaxsize) : chainEnd c b e = reqLast c b e + 1 := by
+  unfold chainEnd effEnd reqLast
+  by_cases h0 : e = 0
+  · subst h0; simp only [beq_self_eq_true, if_true, true_or]; omega
+  · have : (e == 0) = false := by simpa using h0
+    simp only [this, Bool.false_eq_true, if_false, h0, false_or]
+    split
+    · omega
+    · split <;> omega
 
-/-- the class of requests the current code answers wrongly (known finding
-`C06-bounded-end-gapfills-and-deletes-tail`): a bounded EndSeqNo below the last sent number –
-`0 < e < nextOut − 1`, a non-zero `e < b`, a negative `e` -/
-def D9 (c : Conn) (e : Int) : Prop := e ≠ 0 ∧ e < c.sess.nextOut - 1
+theorem tailRows_eq (c : Conn) (b e : Int)
+    (hfits : c.sess.nextOut - 1 ≤ sysMaxsize) (hlt : Rows.AllLt c.sess.nextOut c.journal.out) :
+    tailRows c b e = c.journal.out.filter (fun p => reqLast c b e < p.1) := by
+  unfold tailRows Rows.range
+  rw [List.filter_filter]
+  apply List.filter_congr
+  intro p hp
+  have hp' := hlt p hp
+  unfold effEnd reqLast
+  by_cases h0 : e = 0
+  · subst h0
+    simp only [beq_self_eq_true, if_true, true_or]
+    have : ¬ (sysMaxsize < p.1) := by omega
+    have h2 : ¬ (c.sess.nextOut - 1 < p.1) := by omega
+    simp [this, h2]
+  · have : (e == 0) = false := by simpa using h0
+    simp only [this, Bool.false_eq_true, if_false, h0, false_or]
+    split
+    · have h1 : ¬ (e < p.1) := by omega
+      have h2 : ¬ (c.sess.nextOut - 1 < p.1) := by omega
+      simp [h1, h2]
+    · split
+      · by_cases hb : b ≤ p.1
+        · have h1 : e < p.1 := by omega
+          have h2 : b - 1 < p.1 := by omega
+          have h3 : p.1 ≤ sysMaxsize := by omega
+          simp [h1, h2, hb, h3]
+        · have h2 : ¬ (b - 1 < p.1) := by omega
+          simp [h2, hb]
+      · by_cases he : e < p.1
+        · have hb : b ≤ p.1 := by omega
+          have h3 : p.1 ≤ sysMaxsize := by omega
+          simp [he, hb, h3]
+        · simp [he]
 
-instance (c : Conn) (e : Int) : Decidable (D9 c e) := by unfold D9; infer_instance
-
-/-- `resend_full` for every request outside `D9`. -/
-theorem resend_partial (sr : Msg → Bool) (env : Env) (c : Conn) (m : Msg) (b e : Int)
-    (h : Hyp env c m b e) (hx : ¬ D9 c e) :
+/-- **Every request.**  For every journal satisfying the outbound invariant (any length), every replay
+filter, all counters, every `(BeginSeqNo, EndSeqNo)`, in ACTIVE or RESENDREQ_AWAITING: a request for
+numbers that were sent (`1 ≤ b < nextOut`) is served up to `last = reqLast` – the frames written by
+`recv` form a `ReplyChain` covering exactly `[b, last]`, nothing else happens (`Quiet`), `nextOut`, the
+stored counter and the state are what they were, the journal is the old rows `< b`, then exactly the
+frames written (each under its own number), then the old rows `> last` untouched, and `OutInv` holds
+again; any other request is ignored without a trace. -/
+theorem resend_full (sr : Msg → Bool) (env : Env) (c : Conn) (m : Msg) (b e : Int)
+    (h : Hyp env c m b e) :
     if 1 ≤ b ∧ b < c.sess.nextOut then Served sr env c m b (reqLast c b e) else Ignored sr env c m := by
-  have he : e = 0 ∨ c.sess.nextOut - 1 ≤ e := by
-    unfold D9 at hx
-    by_cases h0 : e = 0
-    · exact Or.inl h0
-    · exact Or.inr (by omega)
   split
   · rename_i hb
-    have hlast : reqLast c b e = c.sess.nextOut - 1 := by unfold reqLast; rw [if_pos he]
-    obtain ⟨sent, g1, g2, g3, g4, g5, g6, g7, g8, g9, g10⟩ :=
-      resend_reply_chain sr env c m b e h hb.1 hb.2 he
-    have hnil : c.journal.out.filter (fun p => decide (c.sess.nextOut - 1 < p.1)) = [] := by
-      rw [List.filter_eq_nil_iff]
+    obtain ⟨hb1, hb2⟩ := hb
+    have hst : c.state = st_ACTIVE ∨ c.state = st_RESENDREQ_AWAITING := by
+      rcases h.state with h1 | ⟨h1, _⟩
+      · exact Or.inl h1
+      · exact Or.inr h1
+    obtain ⟨sent, epr, ch, so, lt, ltz, ok⟩ :=
+      processResend_valid env sr m c b e hst h.sock h.lsender h.ltarget h.lstamp h.req h.inv hb1 hb2
+        h.fits
+    rw [chainEnd_eq c b e hb2 h.fits] at ch ltz
+    rw [tailRows_eq c b e h.fits h.inv.lt] at epr so lt
+    obtain ⟨v, h34, hv⟩ := h.envelope.seq
+    have hfin := finalize_req env m
+      (answered c b sent (c.journal.out.filter fun p => reqLast c b e < p.1)) v h.req.mtype h34 hv
+      (by
+        intro haw
+        rcases h.state with h1 | ⟨_, h2⟩
+        · have : c.state = st_RESENDREQ_AWAITING := haw
+          rw [h1] at this; exact absurd this (by decide)
+        · exact h2)
+    obtain ⟨f1, f2, _, _, f5, f6, f7, f8⟩ := hfin
+    have hok := f8 (Rows.allLt_below _ _)
+    have hrecv := recv_of_resend sr env c _ m _ h.req.mtype h.envelope hst epr
+    rw [f7, hok] at hrecv
+    simp only [raisedOf, List.append_nil] at hrecv
+    have hout : (recv sr env c m).1.journal.out =
+        c.journal.out.below b ++ sent ++ c.journal.out.filter (fun p => reqLast c b e < p.1) := by
+      rw [hrecv]; exact f5
+    have htail : ∀ p ∈ c.journal.out.filter (fun p => decide (reqLast c b e < p.1)),
+        p ∈ c.journal.out ∧ b ≤ p.1 := by
       intro p hp
-      have := h.inv.lt p hp
-      simp only [decide_eq_true_eq]; omega
-    rw [hlast]
-    refine ⟨sent, g1, g2, g3, g4, g5, g6, by rw [hnil, List.append_nil]; exact g7, ?_, g9, g10⟩
-    intro p hp
-    obtain ⟨a1, a2, a3⟩ := g8 p hp
-    exact ⟨a1, by omega, a3⟩
+      obtain ⟨h1, h2⟩ := List.mem_filter.mp hp
+      have hz := chain_le ch
+      simp only [decide_eq_true_eq] at h2
+      exact ⟨h1, by omega⟩
+    refine ⟨sent, ?_, ch, ?_, ?_, ?_, ?_, hout, ?_, ?_, ?_⟩
+    · rw [hrecv]
+      simp only [writes_append, writes_pre, writes_post, writes_map_write, List.nil_append,
+        List.append_nil]
+    · rw [hrecv]
+      refine quiet_append (quiet_append (quiet_pre c) ?_) (quiet_post c)
+      intro x hx
+      obtain ⟨p, _, rfl⟩ := List.mem_map.mp hx
+      exact Or.inl ⟨_, rfl⟩
+    · rw [hrecv]; exact f2
+    · rw [hrecv]
+      exact f6.trans (by show c.sess.nextOut - 1 = c.journal.outSeq; have := h.inv.stored; omega)
+    · rw [hrecv]; exact f1
+    · intro p hp
+      have := ltz p (List.mem_append.mpr (Or.inr hp))
+      exact ⟨(ok p hp).2, by omega, (ok p hp).1⟩
+    · intro n hn
+      rw [hout, List.append_assoc]
+      refine find_below_append h.inv.sorted (by rw [← List.append_assoc]; exact so) ?_ hn
+      intro p hp
+      rcases List.mem_append.mp hp with h1 | h1
+      · exact (ok p h1).2
+      · exact (htail p h1).2
+    · refine ⟨by rw [hout]; exact so, ?_, ?_, ?_⟩
+      · rw [hout, hrecv]; simp only [f2]; exact lt
+      · rw [hout]
+        intro p hp
+        rcases List.mem_append.mp hp with h1 | h1
+        · rcases List.mem_append.mp h1 with h2 | h2
+          · exact h.inv.rows p (Rows.mem_below.mp h2).1
+          · exact (ok p h2).1
+        · exact h.inv.rows p (htail p h1).1
+      · rw [hrecv]
+        show (finalizeMessage env m _).conn.journal.outSeq + 1 = (finalizeMessage env m _).conn.sess.nextOut
+        rw [f6, f2]
+        show c.sess.nextOut - 1 + 1 = c.sess.nextOut
+        omega
   · rename_i hb
     exact (invalid_request_no_side_effect sr env c m b e h.state h.envelope h.req (by omega)).2
+
+/-- **Open-ended request** (EndSeqNo `0` or `≥` the last sent number), spelled out: the chain covers
+exactly `[b, nextOut − 1]` and the journal is the old rows `< b` followed by exactly the frames written. -/
+theorem resend_reply_chain (sr : Msg → Bool) (env : Env) (c : Conn) (m : Msg) (b e : Int)
+    (h : Hyp env c m b e) (hb1 : 1 ≤ b) (hb2 : b < c.sess.nextOut)
+    (he : e = 0 ∨ c.sess.nextOut - 1 ≤ e) :
+    ∃ sent : Rows,
+      writes (recv sr env c m).2 = sent.map (·.2) ∧
+      ReplyChain c.sess c.journal.out sr b (c.sess.nextOut - 1) (sent.map (·.2)) ∧
+      Quiet (recv sr env c m).2 ∧
+      (recv sr env c m).1.sess.nextOut = c.sess.nextOut ∧
+      (recv sr env c m).1.journal.outSeq = c.journal.outSeq ∧
+      (recv sr env c m).1.state = c.state ∧
+      (recv sr env c m).1.journal.out = c.journal.out.below b ++ sent ∧
+      (∀ p ∈ sent, b ≤ p.1 ∧ p.1 < c.sess.nextOut ∧ RowOK p.1 p.2) ∧
+      (∀ n, n < b → (recv sr env c m).1.journal.out.find n = c.journal.out.find n) ∧
+      OutInv (recv sr env c m).1 := by
+  have hf := resend_full sr env c m b e h
+  rw [if_pos ⟨hb1, hb2⟩] at hf
+  have hlast : reqLast c b e = c.sess.nextOut - 1 := by unfold reqLast; rw [if_pos he]
+  rw [hlast] at hf
+  obtain ⟨sent, g1, g2, g3, g4, g5, g6, g7, g8, g9, g10⟩ := hf
+  have hnil : c.journal.out.filter (fun p => decide (c.sess.nextOut - 1 < p.1)) = [] := by
+    rw [List.filter_eq_nil_iff]
+    intro p hp
+    have := h.inv.lt p hp
+    simp only [decide_eq_true_eq]; omega
+  rw [hnil, List.append_nil] at g7
+  refine ⟨sent, g1, g2, g3, g4, g5, g6, g7, ?_, g9, g10⟩
+  intro p hp
+  obtain ⟨a1, a2, a3⟩ := g8 p hp
+  exact ⟨a1, by omega, a3⟩
 
 /-! ### non-vacuity: a concrete journal satisfies the hypotheses and yields the expected chain
 
@@ -318,6 +362,68 @@ example : Hyp envW { c4 with state := st_RESENDREQ_AWAITING, maxResend := 9 } (r
 example : Ignored sr3 envW c4 (req 7 0) :=
   (invalid_request_no_side_effect sr3 envW c4 (req 7 0) 7 0 (Or.inl rfl) (envelope_req _ _ _ _)
     (req_req 7 0 (by decide) (by decide)) (Or.inr (by decide))).2
+
+/-! #### the former finding D9 (repaired by /repo da179c4): bounded and inverted ranges
+
+Journal: application messages 1..5, next outbound number 6.  ResendRequest(2, 3) is answered by the copies
+of 2 and 3 only, and 4, 5 stay in the journal; ResendRequest(4, 2) writes nothing and changes nothing. -/
+
+def J5 : Rows := [app 1, app 2, app 3, app 4, app 5]
+def c5 : Conn := conn 6 J5
+
+theorem outInv5 : OutInv c5 where
+  sorted := by simp [c5, conn, J5, Rows.Sorted, app, row]
+  lt := by
+    intro p hp
+    simp [c5, conn, J5, app, row] at hp
+    rcases hp with h|h|h|h|h <;> subst h <;> decide
+  rows := by
+    intro p hp
+    simp only [c5, conn, J5, List.mem_cons, List.not_mem_nil, or_false] at hp
+    rcases hp with h|h|h|h|h <;> subst h <;>
+      exact rowOK_row _ _ _ (by decide) (by decide) (by decide +kernel) (by decide +kernel)
+  stored := by decide
+
+theorem hyp5 (b e : Int) (hb : 0 ≤ b) (he : 0 ≤ e) : Hyp envW c5 (req b e) b e where
+  state := Or.inl rfl
+  sock := rfl
+  lsender := by decide
+  ltarget := by decide
+  lstamp := by decide
+  inv := outInv5
+  envelope := envelope_req _ _ _ _
+  req := req_req b e hb he
+  fits := by decide
+
+/-- `resend_full` applies to the bounded request (2, 3): served up to 3 -/
+example : Served (fun _ => true) envW c5 (req 2 3) 2 3 := by
+  have := resend_full (fun _ => true) envW c5 (req 2 3) 2 3 (hyp5 2 3 (by decide) (by decide))
+  rw [if_pos (by decide)] at this
+  exact this
+
+/-- … and this is what happens: two copies, rows 4 and 5 still there (all five rows are type D) -/
+example :
+    (writes (recv (fun _ => true) envW c5 (req 2 3)).2).map
+      (fun g => (g.mtype, g.get? tMsgSeqNum, g.get? tPossDupFlag, g.get? tNewSeqNo)) =
+      [("D", some "2", some "Y", none), ("D", some "3", some "Y", none)] ∧
+    (recv (fun _ => true) envW c5 (req 2 3)).1.journal.out.map (fun p => (p.1, p.2.mtype)) =
+      [(1, "D"), (2, "D"), (3, "D"), (4, "D"), (5, "D")] ∧
+    (recv (fun _ => true) envW c5 (req 2 3)).1.journal.out.find 5 = c5.journal.out.find 5 := by
+  decide +kernel
+
+/-- EndSeqNo < BeginSeqNo asks for nothing: nothing written, journal identical -/
+example :
+    writes (recv (fun _ => true) envW c5 (req 4 2)).2 = [] ∧
+    (recv (fun _ => true) envW c5 (req 4 2)).1.journal.out = c5.journal.out := by
+  decide +kernel
+
+/-- bounded request over the mixed journal `J4`: (1, 4) ends with GapFill 2 → 5, row 5 untouched -/
+example :
+    (writes (recv sr3 envW c4 (req 1 4)).2).map
+      (fun g => (g.mtype, g.get? tMsgSeqNum, g.get? tNewSeqNo)) =
+      [("D", some "1", none), ("4", some "2", some "5")] ∧
+    (recv sr3 envW c4 (req 1 4)).1.journal.out.find 5 = c4.journal.out.find 5 := by
+  decide +kernel
 
 end NonVacuity
 
